@@ -438,6 +438,12 @@ def sgpr(S, n, M, m, diag_corr, what):
     S.prove_eq(cov_t, Cref, "SGPR predictive covariance = K** - Q*x (Q_xx[+corr] + s2 I)^-1 Qx*")
 
 
+def sgpr_history(S, ops):
+    """the inducing-point kernel's caches (K_zz, its inverse root) follow the parameters through a history (see C03.history_sgpr)"""
+    from .C03 import history_sgpr
+    history_sgpr(S, ops)
+
+
 def scenarios(tier, seed):
     out = []
     def add(fn, **p):
@@ -457,6 +463,8 @@ def scenarios(tier, seed):
     add("sgpr", n=2, M=1, m=1, diag_corr=False, what="objective")
     add("sgpr", n=2, M=1, m=1, diag_corr=False, what="predict")
     add("sgpr", n=2, M=1, m=1, diag_corr=True, what="predict")
+    for ops in (["P", "O"], ["P", "L"]) + ((["P", "T", "O"], ["P", "E", "L"], ["O", "P", "L"]) if tier != "quick" else ()):
+        add("sgpr_history", ops=ops)
     add("rff", what="kernel")
     add("rff", what="predict", d=1, D=1)
     add("kiss_model", fantasy=False, fpv=False)
@@ -472,7 +480,8 @@ def scenarios(tier, seed):
         add("kiss_model", fantasy=False, fpv=True, nodes=[4, 0], mean="zero")
         add("kiss_model", fantasy=False, fpv=False, nodes=[2, 3], symx=True)
         add("interpolation", sizes=[5, 6, 5], cell="interior")
-        add("kiss_kernel", sizes=[5, 6, 5], ard=True)
-        add("sgpr", n=2, M=2, m=1, diag_corr=False, what="objective")
-        add("sgpr", n=3, M=2, m=1, diag_corr=True, what="predict")
+        add("interpolation", sizes=[6, 5], cell="first")
+        add("kiss_kernel", sizes=[7, 5], ard=True)
+        # (tried and dropped - the queries do not finish: kiss_kernel on a 5x6x5 grid with ARD, the SGPR objective with M=2 and
+        #  the SGPR prediction with n=3)
     return out
